@@ -75,6 +75,9 @@ type iniSection []iniValue
 type ini struct {
 	File     string
 	Sections map[string]iniSection
+
+	// Section names in order of first appearance
+	order []string
 }
 
 // NewIniParser creates a new ini parser for a given Parser.
@@ -384,6 +387,7 @@ func readIni(contents io.Reader, filename string) (*ini, error) {
 	sectionname := ""
 
 	ret.Sections[sectionname] = section
+	ret.order = append(ret.order, sectionname)
 
 	var lineno uint
 
@@ -429,6 +433,7 @@ func readIni(contents io.Reader, filename string) (*ini, error) {
 			if section == nil {
 				section = make(iniSection, 0, 10)
 				ret.Sections[name] = section
+				ret.order = append(ret.order, name)
 			}
 
 			continue
@@ -513,7 +518,8 @@ func (i *IniParser) parse(ini *ini) error {
 
 	var quotesLookup = make(map[*Option]bool)
 
-	for name, section := range ini.Sections {
+	for _, name := range ini.order {
+		section := ini.Sections[name]
 		groups := i.matchingGroups(name)
 
 		if len(groups) == 0 {
